@@ -375,7 +375,20 @@ def gen_extra(tier, rnd):
     desc = []
     for _ in range(800 if tier == 'quick' else 10000):
         desc.append(dict(term=rand_desc(rnd, counter), prof=rnd.choice(['lp', 'cp']),
-                         twice=rnd.random() < 0.25, late=rnd.random() < 0.5))
+                         twice=rnd.random() < 0.25, late=rnd.random() < 0.5, sub=rnd.random() < 0.4, setattr=rnd.random() < 0.4))
+    # fixed corpus: every descriptor kind x {builtin type, user subclass of it} x {decorated in the class body,
+    # decorated after class creation and put back with setattr} x both profilers
+    fn = lambda n, kind='func': ['fn', dict(kind=kind, sig=1, tag='c%d' % n, name='corpus%d' % n, doc='corpus doc', fail=0)]
+    corpus_terms = [['plain', fn(1)], ['plain', ['partial', fn(2), [1], {'y': 8}]], ['plain', ['bound', fn(3)[1]]],
+                    ['classmethod', fn(4)], ['staticmethod', fn(5)], ['staticmethod', ['partial', fn(6), [2], {}]],
+                    ['partialmethod', fn(7), [1], {}], ['property', [fn(8), fn(9), fn(10)], 'the doc'],
+                    ['property', [fn(11), None, None], None], ['cached_property', fn(12)],
+                    ['classmethod', fn(13, 'gen')], ['staticmethod', fn(14, 'coro')]]
+    for t in corpus_terms:
+        for sub in (False, True):
+            for sa in (False, True):
+                for p in ('lp', 'cp'):
+                    desc.append(dict(term=t, prof=p, twice=False, late=True, sub=sub, setattr=sa))
     meta = []
     for i in range(400 if tier == 'quick' else 4000):
         meta.append(dict(spec=rand_spec(rnd, i), prof=rnd.choice(['lp', 'cp']), twice=rnd.random() < 0.2,
@@ -401,7 +414,13 @@ def gen_extra(tier, rnd):
     inst = [dict(factors=f, eqhash=e, falsy=fa, wrap=w, prof=p, order=o)
             for f in ([2, 2, 2.0], [3, 3]) for e in (False, True) for fa in (False, True) for w in INST_WRAPS
             for p in ('lp', 'cp') for o in ('each', 'after')]
-    return dict(nest=gen_nest(tier, rnd), desc=desc, meta=meta, reg=reg, family=family, inst=inst, defer=defer)
+    # keyword arguments named like the wrappers' own parameters / locals, for every function kind and call shape
+    from harness.drivers.c03_objects import KW_NAMES
+    shapes = ('plain', 'method', 'static', 'class', 'partial', 'runcall')
+    kwnames = [dict(kind=k, shape=sh, names=[n], prof=p) for k in ('func', 'gen', 'coro', 'agen', 'tgen') for sh in shapes
+               for n in KW_NAMES for p in ('lp', 'cp')]
+    kwnames += [dict(kind='func', shape=sh, names=list(KW_NAMES), prof=p) for sh in shapes for p in ('lp', 'cp')]
+    return dict(nest=gen_nest(tier, rnd), desc=desc, meta=meta, reg=reg, family=family, inst=inst, kwnames=kwnames, defer=defer)
 
 
 def strip_phase(x):
@@ -520,6 +539,12 @@ def py_spec_family(o):
     keyword-only defaults, attributes, name, own bound objects); the wrappers are distinct and wrap their own function"""
     return 'driver_error' not in o and strip_phase(o['got']) == strip_phase(o['ref']) and all(o['wrapped_own']) \
         and len(o['wrapped_own']) > 0 and not o['leaked']
+
+
+def py_spec_kwnames(o):
+    """a call passing keyword arguments named func / self / args / kwds / cmd / ... reaches the decorated callable exactly
+    as it reaches the original (plain call, method, static/class method, partial, prof.runcall)"""
+    return 'driver_error' not in o and o['ref'][0] != 'failed' and strip_phase(o['got']) == strip_phase(o['ref']) and not o['leaked']
 
 
 def py_spec_inst(o):
@@ -760,7 +785,7 @@ def eval_extra(extra, out, res, cov, use_coq=True):
             res.spec_fails.append(dict(case=dict(stream='nest', **c), impl=o,
                                        why='decorated code under another active profiler: expected %r' % (nest_expected(c),), finding=fid))
     for name, spec, coqfail in (('desc', py_spec_desc, set()), ('meta', py_spec_meta, coq_meta_fail), ('reg', py_spec_reg, set()),
-                                ('family', py_spec_family, set()), ('inst', py_spec_inst, set())):
+                                ('family', py_spec_family, set()), ('inst', py_spec_inst, set()), ('kwnames', py_spec_kwnames, set())):
         for n, (c, o) in enumerate(zip(extra[name], out[name])):
             if 'driver_error' in o:
                 res.infra_errors.append('%s driver error: %s' % (name, o['driver_error']))
@@ -774,6 +799,8 @@ def eval_extra(extra, out, res, cov, use_coq=True):
                                            why={'desc': 'descriptor/partial wrapped by the profiler behaves differently from the original on some access path',
                                                 'meta': 'name / doc / signature / kind / attributes not preserved',
                                                 'reg': 'behaviour of a function changed by registering it (add_function / add_callable / decoration)',
+                                                'kwnames': 'a keyword argument whose name coincides with a name used inside the wrappers '
+                                                           '(func, self, args, kwds, ...) does not reach the decorated callable as it reaches the original',
                                                 'inst': 'a callable instance (equal-but-distinct / falsy) decorated directly or inside a wrapper object '
                                                         'does not give the results, types or per-object side effects of the original',
                                                 'family': 'function objects made by one `def` (shared code object, different defaults / attributes / names) '
@@ -811,7 +838,7 @@ def run(tier, seed):
                         best = cand
         ex2 = gen_extra('quick', r2)
         o2 = core.run_impl(impl, 'harness.drivers.c03', dict(extra=ex2), timeout=1200)['extra']
-        for name, spec in (('nest', None), ('desc', py_spec_desc), ('meta', py_spec_meta), ('reg', py_spec_reg), ('family', py_spec_family), ('inst', py_spec_inst)):
+        for name, spec in (('nest', None), ('desc', py_spec_desc), ('meta', py_spec_meta), ('reg', py_spec_reg), ('family', py_spec_family), ('inst', py_spec_inst), ('kwnames', py_spec_kwnames)):
             for c, o in zip(ex2[name], o2[name]):
                 if 'driver_error' in o:
                     continue
@@ -887,7 +914,7 @@ def run(tier, seed):
                 hyp_coro += 1
             else:
                 hyp_coro_out += 1
-    n_eval = 3 * len(recs) + 3 * len(arecs) + len(kcases) + sum(len(extra[k]) for k in ('nest', 'desc', 'meta', 'reg', 'family', 'inst'))
+    n_eval = 3 * len(recs) + 3 * len(arecs) + len(kcases) + sum(len(extra[k]) for k in ('nest', 'desc', 'meta', 'reg', 'family', 'inst', 'kwnames'))
     two_prof = sum(1 for c in extra['nest'] if len({p for _, p in c['layers']}) >= 2)
     exh = (3, 2) if tier == 'quick' else (4, 3)
     cov.update(
@@ -901,10 +928,10 @@ def run(tier, seed):
         exhaustive=True,
         exhaustive_scope='op sequences of length <= %d over {next, send 2, throw ValueError, throw GeneratorExit, throw CancelledError, close} for %d random tables '
                    '(<= 3 states) per kind; all nestings of depth <= %d over {decorate, with} x 4 profiler instances; '
-                   'all registration configurations (sources x twins x again x via x enabled); all 256 callable-instance configurations; %s function-family configurations'
+                   'all registration configurations (sources x twins x again x via x enabled); all 256 callable-instance configurations; 96 fixed descriptor configurations (kind x subclass x setattr x profiler); all 792+12 keyword-name configurations; %s function-family configurations'
                    % (exh[0], 4 if tier == 'quick' else 16, exh[1], 'all 960' if tier != 'quick' else '320 (n = 3) of 960'),
         streams=dict(protocol_triples=len(recs), protocol_runs=3 * len(recs), await_runs=3 * len(arecs), kern=len(kcases),
-                     nest=len(extra['nest']), desc=len(extra['desc']), meta=len(extra['meta']), reg=len(extra['reg']), family=len(extra['family']), inst=len(extra['inst'])),
+                     nest=len(extra['nest']), desc=len(extra['desc']), meta=len(extra['meta']), reg=len(extra['reg']), family=len(extra['family']), inst=len(extra['inst']), kwnames=len(extra['kwnames'])),
         kern_modes=_hist(c['mode'] for c in kcases), kern_step_kinds=_hist(st[0] for c in kcases for st in c['steps']),
         kern_ticks_at_count_zero_then_call=sum(1 for c in kcases if any(a[0] == 'tick' and b[0] in ('call', 'gsend', 'gstart') for a, b in zip(c['steps'], c['steps'][1:]))),
         kinds=_hist(r['kind'] for r in recs),
@@ -979,7 +1006,7 @@ def replay(path):
         ok = py_spec_nest(cc, o)
         extra = dict(expected=nest_expected(cc), finding=None if ok else classify_nest(cc, o))
     else:
-        ok = {'desc': py_spec_desc, 'meta': py_spec_meta, 'reg': py_spec_reg, 'family': py_spec_family, 'inst': py_spec_inst}[stream](o)
+        ok = {'desc': py_spec_desc, 'meta': py_spec_meta, 'reg': py_spec_reg, 'family': py_spec_family, 'inst': py_spec_inst, 'kwnames': py_spec_kwnames}[stream](o)
         extra = dict(finding=classify_meta(o)) if (stream == 'meta' and not ok) else {}
     print(json.dumps(dict(case=c, impl=o, holds=ok, **extra), indent=1, default=str))
     return 0 if ok else 1
